@@ -21,6 +21,9 @@ class ProgGen:
                      variables take the oracle's values 0, 1, 2 through assignments, so some paths raise
        'while-true'  `while True:` loops that consult the oracle on every iteration and leave by a break - a plain
                      one, or one in the else clause of a nested for loop
+       'exprs'       further expression forms around oracle calls, none with an and/or inside: conditional expression,
+                     unary minus / not, assignment expression, membership and identity tests, starred and keyword
+                     arguments, slices, formatted strings, a lambda called at once, a comprehension
        'chain'       chained comparisons whose operands call the oracle (the middle one is evaluated once, the
                      last one only when the first link holds)
     """
@@ -44,6 +47,27 @@ class ProgGen:
             out += " %s %s" % (o, self.rng.choice([self.ext(), self.ext(), self.rng.choice(self.vars)]))
         return out
 
+    def expr(self):
+        e = self.ext
+        v = lambda: self.rng.choice(self.vars)  # noqa: E731
+        forms = [
+            lambda: "%s if %s else %s" % (e(), e(), e()),
+            lambda: "-%s" % e(),
+            lambda: "not %s" % e(),
+            lambda: "(%s := %s)" % (v(), e()),
+            lambda: "%s in (0, %s)" % (e(), e()),
+            lambda: "%s is None" % e(),
+            lambda: "tup(*[%s])[0]" % e(),
+            lambda: "max(%s, key=lambda q: -q, default=%s)" % ("[%s, %s]" % (e(), e()), e()),
+            lambda: "(0, 1, 2)[%s:][0]" % e(),
+            lambda: "len(f'{%s}')" % e(),
+            lambda: "(lambda q: q + 1)(%s)" % e(),
+            lambda: "sum([%s for _ in (1, 2)])" % e(),
+            lambda: "%s + %s * %s" % (e(), v(), e()),
+            lambda: "abs(%s - %s)" % (e(), e()),
+        ]
+        return self.rng.choice(forms)()
+
     def raising(self):
         x, y = self.rng.choice(self.vars), self.rng.choice(self.vars)
         return self.rng.choice(["%s / %s" % (x, y), "%s %% %s" % (x, y), "(a, b)[%s]" % y, "%s // %s == 0" % (x, y)])
@@ -52,6 +76,8 @@ class ProgGen:
         r = self.rng.random()
         if "chain" in self.f and r < 0.06:
             return self.chain()
+        if "exprs" in self.f and r < 0.16:
+            return self.expr()
         if r < 0.5:
             return self.ext()
         if r < 0.7:
@@ -91,6 +117,8 @@ class ProgGen:
             return self.chain()
         if "raise-test" in self.f and r < 0.1:
             return self.raising()
+        if "exprs" in self.f and r < 0.18:
+            return self.expr()
         if r < 0.3:
             return "%s == 1" % self.ext()
         if r < 0.5:
@@ -201,7 +229,7 @@ class ProgGen:
         return "\n".join(["def f(a, b):"] + body) + "\n"
 
 
-CLEAN = {"boolop", "not", "attr", "for", "while-else", "for-else", "aug", "const-test", "chain", "raise-test", "while-true"}
+CLEAN = {"boolop", "not", "attr", "for", "while-else", "for-else", "aug", "const-test", "chain", "raise-test", "while-true", "exprs"}
 ALL = CLEAN | {"nested-boolop", "for-live", "dead-after-jump", "boolop-in-expr"}
 
 
